@@ -727,3 +727,31 @@ def defer_queue_first():
 
 
 ALL["defer_queue_first"] = defer_queue_first
+
+
+def root_history():
+    """a history policy on the ROOT machine (third seeded defect C03): start() after stop() begins in the initial states
+    again in back / back11"""
+    return {
+        "name": "root_history",
+        "events": ["E0", "E1", "E2"],
+        "machines": [{
+            "name": "Top", "regions": [["A", "B", "C"], ["X", "Y"]], "history": "always",
+            "rows": ["A + E0 / a0 -> B", "B + E0 [g0] / a1 -> C", "C + E0 -> A", "X + E1 / a2 -> Y", "Y + E1 [g1] -> X", "B + E2 / a3", "A + E2 -> C"],
+        }],
+    }
+
+
+ALL["root_history"] = root_history
+
+
+def entry_pt_noqueue():
+    """fork_entry with a sub-machine that declares no_message_queue (back / back11): the second leg of an entry-point
+    transition must still be taken (third seeded defect C09); run without re-entrant submissions"""
+    sp = fork_entry()
+    sp["name"] = "entry_pt_noqueue"
+    sp["machines"][1]["no_queue"] = True
+    return sp
+
+
+ALL["entry_pt_noqueue"] = entry_pt_noqueue
